@@ -111,7 +111,7 @@ fn record(ka: &Keypair, kb: &Keypair) -> [Vec<u8>; 3] {
     let det = Det::new();
     let mut a = party("A", ka, true, b"");
     let mut b = party("B", kb, false, b"");
-    let mut sink = Out::create(std::env::temp_dir().join(format!("drv-secure-rec-{}.ndjson", std::process::id())));
+    let mut sink = Out::create("/dev/null");
     let mut m: [Vec<u8>; 3] = Default::default();
     let mut k0 = 0;
     for _ in 0..20 {
